@@ -246,6 +246,60 @@ def handlePhys (toks : List String) : String :=
     | _, _, _, _, _ => "bad-op"
   | _ => "bad-op"
 
+
+/-! ### explicit dictionaries -/
+
+def parseDictValue (s : String) : Option (Option Bytes) :=
+  if s = "e" then some (some []) else
+  match s.toList with
+  | 'n' :: _ => some none
+  | _ => (parseHex s).map some
+
+def parseDict (s : String) : Option Dict :=
+  match s.splitOn "/" with
+  | [ks, vs] =>
+    match parseList (fun k => if k = "n" then some none else k.toNat?.map some) ks, parseList parseDictValue vs with
+    | some k, some v => some { keys := k, values := v }
+    | _, _ => none
+  | _ => none
+
+def showDictRow : Option Bytes → String
+  | none => "n"
+  | some [] => "e"
+  | some b => toHex b
+
+/-- bucket functions the merge model is run with: everything collides / by length / by first byte -/
+def hashes : List (Option Bytes → Nat) :=
+  [fun _ => 0, fun v => match v with | none => 0 | some b => b.length + 1, fun v => match v with | none => 7 | some b => b.headD 3]
+
+def handleDict (toks : List String) : String :=
+  match toks with
+  | ["dconcat", kt, var, ds, pairs] =>
+    match (ds.splitOn ";").mapM parseDict, var.toNat?, parsePairs pairs with
+    | some dicts, some var, some pairs =>
+      let maxKey := if kt = "i8" then 127 else if kt = "u16" then 65535 else 2 ^ 31 - 1
+      if var % 4 < 2 then
+        let spec := showList showDictRow (concatSpec (dicts.map Dict.decode))
+        let models := hashes.map (fun h => match concatDictionaries h maxKey dicts with
+          | some d => showList showDictRow d.decode
+          | none => "ERR:overflow")
+        agree "dconcat" models spec
+      else
+        let spec := match interleaveSpec (dicts.map Dict.decode) pairs with | some r => showList showDictRow r | none => "PANIC"
+        -- `interleave_dictionaries`: key masks from the pairs, keys remapped through the merge
+        let masks := (List.range dicts.length).map (fun a =>
+          (List.range ((dicts[a]?).map (·.keys.length) |>.getD 0)).map (fun b => pairs.any (fun p => p.1 == a && p.2 == b)))
+        let models := hashes.map (fun h => match mergeDictionaryValues h maxKey dicts (some masks) with
+          | some (maps, merged) =>
+            match pairs.mapM (fun p => (dicts[p.1]?).bind (fun d => (d.keys[p.2]?).map (fun k =>
+                k.bind (fun kk => (merged[(maps.getD p.1 []).getD kk 0]?).join)))) with
+            | some rows => showList showDictRow rows
+            | none => "PANIC"
+          | none => "ERR:overflow")
+        agree "dinterleave" models spec
+    | _, _, _ => "bad-op"
+  | _ => "bad-op"
+
 /-! ### coalescer -/
 
 def parseOp (s : String) : Option (Op Row) :=
@@ -416,6 +470,7 @@ def handle (toks : List String) : String :=
       agree "shift" models (showRows (shiftSpec rows k))
     | _, _ => "bad-op"
   | ["coalesce", ty, target, limit, ops] => handleCoalesce ty target limit ops
+  | "dconcat" :: _ => handleDict toks
   | _ => handlePhys toks
 
 end ArrowModel.C03
